@@ -164,6 +164,9 @@ static void do_conn(thr_t *t, const char *hname, const char *ver, int suite, con
     matrixSslSessOptsSetServerTlsVersions(&so, &pv, 1);
     matrixSslSessOptsSetClientTlsVersions(&co, &pv, 1);
     if (!strcmp(want, "ticket") || (!strcmp(want, "full") && hname[0] == 'T')) co.ticketResumption = 1;
+    /* handles named E..: the session is created WITHOUT extended master secret and offered again WITH it - RFC 7627 5.3: the
+       server must not resume it and falls back to a full handshake (want "idems": completes, not resumed) */
+    if (hname[0] == 'E' && !strcmp(want, "full")) co.extendedMasterSecret = -1;
     /* clients differ in the curve they allow for ECDHE (by handle and connection count), so that the key set's shared
        ephemeral-key cache is regenerated while other threads read it */
     { unsigned hv = 0; const char *q; static atomic_long nconn; for (q = hname; *q; q++) hv = hv * 31 + (unsigned char) *q;
